@@ -322,6 +322,13 @@ func (bc *boundsCtx) addCond(f *factSet, cond ssa.Value, truth bool, depth int) 
 			bc.addCond(f, x.X, !truth, depth)
 		}
 	case *ssa.Call:
+		// strings.HasSuffix(s, t) / HasPrefix(s, t) found true: len(t) <= len(s)
+		if nm := calleeName(&x.Call); truth && (nm == "strings.HasSuffix" || nm == "strings.HasPrefix" || nm == "bytes.HasSuffix" || nm == "bytes.HasPrefix") && len(x.Call.Args) == 2 {
+			sn, so := bc.lenTerm(x.Call.Args[0])
+			tn, to := bc.lenTerm(x.Call.Args[1])
+			f.le(tn, to, sn, so, 0)
+			return
+		}
 		callee := staticCallee(&x.Call)
 		if callee == nil || depth > 1 || len(callee.Blocks) != 1 {
 			return
